@@ -2669,7 +2669,7 @@ static void struct_members(Token **rest, Token *tok, Type *ty) {
       Member *mem = calloc(1, sizeof(Member));
       mem->ty = basety;
       mem->idx = idx++;
-      mem->align = attr.align ? attr.align : mem->ty->align;
+      mem->align = attr.align;
       cur = cur->next = mem;
       continue;
     }
@@ -2684,7 +2684,7 @@ static void struct_members(Token **rest, Token *tok, Type *ty) {
       mem->ty = declarator(&tok, tok, basety);
       mem->name = mem->ty->name;
       mem->idx = idx++;
-      mem->align = attr.align ? attr.align : mem->ty->align;
+      mem->align = attr.align;
 
       if (consume(&tok, tok, ":")) {
         mem->is_bitfield = true;
@@ -2786,6 +2786,14 @@ static Type *struct_union_decl(Token **rest, Token *tok) {
   return ty;
 }
 
+// Alignment of a member: an explicit _Alignas wins; otherwise it is the
+// alignment of the member's type, or 1 if the struct or union is packed.
+static int member_align(Type *ty, Member *mem) {
+  if (mem->align)
+    return mem->align;
+  return ty->is_packed ? 1 : mem->ty->align;
+}
+
 // struct-decl = struct-union-decl
 static Type *struct_decl(Token **rest, Token *tok) {
   Type *ty = struct_union_decl(rest, tok);
@@ -2798,6 +2806,8 @@ static Type *struct_decl(Token **rest, Token *tok) {
   int bits = 0;
 
   for (Member *mem = ty->members; mem; mem = mem->next) {
+    mem->align = member_align(ty, mem);
+
     if (mem->is_bitfield && mem->bit_width == 0) {
       // Zero-width anonymous bitfield has a special meaning.
       // It affects only alignment.
@@ -2811,13 +2821,13 @@ static Type *struct_decl(Token **rest, Token *tok) {
       mem->bit_offset = bits % (sz * 8);
       bits += mem->bit_width;
     } else {
-      if (!ty->is_packed)
-        bits = align_to(bits, mem->align * 8);
+      bits = align_to(bits, mem->align * 8);
       mem->offset = bits / 8;
       bits += mem->ty->size * 8;
     }
 
-    if (!ty->is_packed && ty->align < mem->align)
+    // Unnamed bitfields do not affect the alignment of the struct.
+    if (ty->align < mem->align && !(mem->is_bitfield && !mem->name))
       ty->align = mem->align;
   }
 
@@ -2837,10 +2847,14 @@ static Type *union_decl(Token **rest, Token *tok) {
   // are already initialized to zero. We need to compute the
   // alignment and the size though.
   for (Member *mem = ty->members; mem; mem = mem->next) {
-    if (ty->align < mem->align)
+    mem->align = member_align(ty, mem);
+    int sz = mem->is_bitfield ? (mem->bit_width + 7) / 8 : mem->ty->size;
+
+    // Unnamed bitfields do not affect the alignment of the union.
+    if (ty->align < mem->align && !(mem->is_bitfield && !mem->name))
       ty->align = mem->align;
-    if (ty->size < mem->ty->size)
-      ty->size = mem->ty->size;
+    if (ty->size < sz)
+      ty->size = sz;
   }
   ty->size = align_to(ty->size, ty->align);
   return ty;
